@@ -266,7 +266,7 @@ def cli_args(op, scn, no_lock=False):
 # running the binary under the shim
 
 def run_shim(fclones, shim, args, report, scope, fail=None, fail2=None, kill=None, sim_ficlone=False, cwd=None,
-             threads="1", timeout=60, binary_args_stdin=True, env_extra=None, drop_caps=False):
+             threads="1", timeout=60, binary_args_stdin=True, env_extra=None, drop_caps=False, plant=None):
     """returns dict(exit, stderr, stdout, trace=[fields...])"""
     env = dict(os.environ)
     env.update({"LD_PRELOAD": shim, "FSSHIM_SCOPE": scope, "RAYON_NUM_THREADS": threads})
@@ -278,6 +278,8 @@ def run_shim(fclones, shim, args, report, scope, fail=None, fail2=None, kill=Non
         env["FSSHIM_KILL_AT"], env["FSSHIM_KILL_WHEN"] = str(kill[0]), kill[1]
     if sim_ficlone:
         env["FSSHIM_SIM_FICLONE"] = "1"
+    if plant:
+        env["FSSHIM_PLANT_AT"], env["FSSHIM_PLANT_PATH"] = str(plant[0]), plant[1]
     if env_extra:
         env.update(env_extra)
     with tempfile.TemporaryFile() as tf:
